@@ -1359,7 +1359,11 @@ def pretty_dict(d, ctx, trailing_comment=None):
     has_comment = bool(trailing_comment)
 
     sorted_keys = (
-        sorted(d.keys(), key=_AlwaysSortable)
+        sorted(
+            d.keys(),
+            # A key carrying a comment is ordered by the key itself.
+            key=lambda k: _AlwaysSortable(unwrap_comments(k)[0])
+        )
         if ctx.sort_dict_keys
         else d.keys()
     )
